@@ -1,5 +1,6 @@
 import Rbp.Proofs.Stats
 import Rbp.Proofs.RunSpec
+import Rbp.Generated.Consts
 /-!
 # C15 — every simplestats figure equals an independent recomputation over the range
 Integer figures are proved equal to closed expressions over the delivered block list; means are exact rationals
@@ -27,6 +28,13 @@ theorem fee_rule (height : Nat) (t : W.RTx) :
 /-- the subsidy is 50 coins halved every 210000 heights -/
 theorem reward_halving (height : Nat) : reward height = 5000000000 / 2 ^ (height / 210000) := by
   simp [reward, Nat.shiftRight_eq_div_pow]
+
+/-- the subsidy rule in the SOURCE TEXT of `block.rs` (re-read on every run) is 50 coins halved every 210000 heights, and it
+    is the rule the model's fee figure uses -/
+theorem reward_constants_published (height : Nat) :
+    Generated.rewardBase = 5000000000 ∧ Generated.halvingInterval = 210000 ∧
+    reward height = Generated.rewardBase >>> (height / Generated.halvingInterval) := by
+  refine ⟨by decide, by decide, rfl⟩
 
 /-- the mean's numerator is the exact sum of the listed values and its denominator their number (no 32-bit wrap-around) -/
 theorem mean_exact (ver : UInt8) (bs : List EBlock) :
